@@ -23,7 +23,7 @@ macro_rules! comp_plain {
         }
         impl Drop for $name { fn drop(&mut self) { reg::dropped(self.id); } }
         impl Clone for $name {
-            fn clone(&self) -> Self { let id = reg::cloned(self.id); Self { id, p: self.p } }
+            fn clone(&self) -> Self { reg::clone_hook(stringify!($name)); let id = reg::cloned(self.id); Self { id, p: self.p } }
         }
     )*};
 }
@@ -96,6 +96,7 @@ impl Drop for Th {
 }
 impl Clone for Th {
     fn clone(&self) -> Self {
+        reg::clone_hook("Th");
         let id = reg::cloned(self.id);
         Self { id, p: self.p.clone(), s: self.s.clone() }
     }
